@@ -365,6 +365,15 @@ def _return_locals(body):
                 if pl and not pl['p'] and pl['l'] not in out:
                     out.add(pl['l'])
                     changed = True
+                # the output of an await-inlined helper: `x = (p as Ready).0` with `p = Poll::Ready(y)` (inline.inline_awaits)
+                elif pl and len(pl['p']) == 2 and isinstance(pl['p'][0], dict) and pl['p'][0].get('n') == 'Ready' and isinstance(pl['p'][1], dict) and pl['p'][1].get('f') == 0:
+                    for _b2, _j2, s2 in body.assigns():
+                        if s2['lhs']['l'] == pl['l'] and not s2['lhs']['p'] and s2['rv']['k'] == 'aggregate' and s2['rv'].get('agg') == 'adt' \
+                                and strip_generics(s2['rv']['adt']) == 'core::task::poll::Poll' and s2.get('inl'):
+                            y = op_local(s2['rv']['ops'][0])
+                            if y is not None and y not in out:
+                                out.add(y)
+                                changed = True
     return out
 
 
